@@ -161,7 +161,7 @@ ExtRowTwoNotAMatching(c, st, nb) ==
                     SkeletonOf(obs[r]) = Skeleton(n, f) /\ ClosersTyped(obs[r], f)
 
 \* ------------------------------------------------------------------ verdict
-Verdict(c) ==
+VerdictAsNamed(c) ==
   IF ~InputOK(c) THEN <<"fail", "InputWellFormed", "harness">>
   ELSE LET st == Structs[c.sid]
            nb == Numbering(st.res, c.gaps)
@@ -179,6 +179,18 @@ Verdict(c) ==
   ELSE IF f5 \in {"ExtRowsBalancedLen", "ExtEncodesEachOnce"} /\ ExtRowTwoNotAMatching(c, st, nb)
        THEN <<"deviation", "ExtRowTwoNotAMatching", f5>>
   ELSE <<"fail", f5, "extended_dot_bracket">>
+
+\* Entries that name their first residue with a blank insertion code (c.optional, indices into c.entries): the
+\* code may resolve such an identifier to the residue without insertion code it spells, or find no residue for
+\* it.  The case is in order if it is in order for SOME such reading; otherwise the verdict of the reading
+\* "none of them resolves" is reported.
+Optional(c) == IF "optional" \in DOMAIN c THEN { c.optional[k] : k \in 1..Len(c.optional) } ELSE {}
+Reading(c, D) == [c EXCEPT !.entries = [k \in 1..Len(c.entries) |->
+                                          IF k \in D THEN [c.entries[k] EXCEPT !.a = 0] ELSE c.entries[k]]]
+Verdict(c) ==
+  IF Optional(c) = {} THEN VerdictAsNamed(c)
+  ELSE IF \E D \in SUBSET Optional(c) : VerdictAsNamed(Reading(c, D))[1] = "ok" THEN <<"ok">>
+  ELSE VerdictAsNamed(Reading(c, Optional(c)))
 
 \* is the case non-trivial? (some nucleotide is named by two different input pairs)
 Multiplet(c) ==
